@@ -12,6 +12,7 @@ mod evidence;
 mod gen;
 mod keys;
 mod legs;
+mod logmon;
 mod model;
 mod mon;
 mod pipeline;
@@ -22,6 +23,7 @@ use evidence::{Ctx, Tier};
 use std::time::Instant;
 
 fn main() {
+    logmon::install();
     let args: Vec<String> = std::env::args().collect();
     if args.len() < 3 {
         eprintln!("usage: sdjwt-mon <Cxx> <quick|thorough> [--replay <file>] [--case <n>]");
